@@ -11,71 +11,71 @@ import (
 
 func AddUint64(p *uint64, d uint64) uint64 {
 	vsched.YieldSkip("atomic", 1)
-	vsched.AtomicSync(unsafe.Pointer(p))
+	vsched.AtomicSyncW(unsafe.Pointer(p))
 	*p += d
 	return *p
 }
 func AddInt64(p *int64, d int64) int64 {
 	vsched.YieldSkip("atomic", 1)
-	vsched.AtomicSync(unsafe.Pointer(p))
+	vsched.AtomicSyncW(unsafe.Pointer(p))
 	*p += d
 	return *p
 }
 func AddUint32(p *uint32, d uint32) uint32 {
 	vsched.YieldSkip("atomic", 1)
-	vsched.AtomicSync(unsafe.Pointer(p))
+	vsched.AtomicSyncW(unsafe.Pointer(p))
 	*p += d
 	return *p
 }
 func AddInt32(p *int32, d int32) int32 {
 	vsched.YieldSkip("atomic", 1)
-	vsched.AtomicSync(unsafe.Pointer(p))
+	vsched.AtomicSyncW(unsafe.Pointer(p))
 	*p += d
 	return *p
 }
 func LoadUint64(p *uint64) uint64 {
 	vsched.YieldSkip("atomic", 1)
-	vsched.AtomicSync(unsafe.Pointer(p))
+	vsched.AtomicSyncR(unsafe.Pointer(p))
 	return *p
 }
 func LoadInt64(p *int64) int64 {
 	vsched.YieldSkip("atomic", 1)
-	vsched.AtomicSync(unsafe.Pointer(p))
+	vsched.AtomicSyncR(unsafe.Pointer(p))
 	return *p
 }
 func LoadUint32(p *uint32) uint32 {
 	vsched.YieldSkip("atomic", 1)
-	vsched.AtomicSync(unsafe.Pointer(p))
+	vsched.AtomicSyncR(unsafe.Pointer(p))
 	return *p
 }
 func LoadInt32(p *int32) int32 {
 	vsched.YieldSkip("atomic", 1)
-	vsched.AtomicSync(unsafe.Pointer(p))
+	vsched.AtomicSyncR(unsafe.Pointer(p))
 	return *p
 }
 func StoreUint64(p *uint64, v uint64) {
 	vsched.YieldSkip("atomic", 1)
-	vsched.AtomicSync(unsafe.Pointer(p))
+	vsched.AtomicSyncW(unsafe.Pointer(p))
 	*p = v
 }
 func StoreInt64(p *int64, v int64) {
 	vsched.YieldSkip("atomic", 1)
-	vsched.AtomicSync(unsafe.Pointer(p))
+	vsched.AtomicSyncW(unsafe.Pointer(p))
 	*p = v
 }
 func StoreUint32(p *uint32, v uint32) {
 	vsched.YieldSkip("atomic", 1)
-	vsched.AtomicSync(unsafe.Pointer(p))
+	vsched.AtomicSyncW(unsafe.Pointer(p))
 	*p = v
 }
 func StoreInt32(p *int32, v int32) {
 	vsched.YieldSkip("atomic", 1)
-	vsched.AtomicSync(unsafe.Pointer(p))
+	vsched.AtomicSyncW(unsafe.Pointer(p))
 	*p = v
 }
 func CompareAndSwapUint64(p *uint64, o, n uint64) bool {
 	vsched.YieldSkip("atomic", 1)
-	vsched.AtomicSync(unsafe.Pointer(p))
+	vsched.AtomicSyncW(unsafe.Pointer(p))
 	if *p == o {
 		*p = n
 		return true
@@ -84,7 +84,7 @@ func CompareAndSwapUint64(p *uint64, o, n uint64) bool {
 }
 func CompareAndSwapInt64(p *int64, o, n int64) bool {
 	vsched.YieldSkip("atomic", 1)
-	vsched.AtomicSync(unsafe.Pointer(p))
+	vsched.AtomicSyncW(unsafe.Pointer(p))
 	if *p == o {
 		*p = n
 		return true
@@ -93,7 +93,7 @@ func CompareAndSwapInt64(p *int64, o, n int64) bool {
 }
 func CompareAndSwapInt32(p *int32, o, n int32) bool {
 	vsched.YieldSkip("atomic", 1)
-	vsched.AtomicSync(unsafe.Pointer(p))
+	vsched.AtomicSyncW(unsafe.Pointer(p))
 	if *p == o {
 		*p = n
 		return true
@@ -102,7 +102,7 @@ func CompareAndSwapInt32(p *int32, o, n int32) bool {
 }
 func CompareAndSwapUint32(p *uint32, o, n uint32) bool {
 	vsched.YieldSkip("atomic", 1)
-	vsched.AtomicSync(unsafe.Pointer(p))
+	vsched.AtomicSyncW(unsafe.Pointer(p))
 	if *p == o {
 		*p = n
 		return true
@@ -344,39 +344,39 @@ func (x *Uint32) CompareAndSwap(o, n uint32) bool {
 
 func SwapUint64(p *uint64, n uint64) uint64 {
 	vsched.YieldSkip("atomic", 1)
-	vsched.AtomicSync(unsafe.Pointer(p))
+	vsched.AtomicSyncW(unsafe.Pointer(p))
 	o := *p
 	*p = n
 	return o
 }
 func SwapInt64(p *int64, n int64) int64 {
 	vsched.YieldSkip("atomic", 1)
-	vsched.AtomicSync(unsafe.Pointer(p))
+	vsched.AtomicSyncW(unsafe.Pointer(p))
 	o := *p
 	*p = n
 	return o
 }
 func SwapUint32(p *uint32, n uint32) uint32 {
 	vsched.YieldSkip("atomic", 1)
-	vsched.AtomicSync(unsafe.Pointer(p))
+	vsched.AtomicSyncW(unsafe.Pointer(p))
 	o := *p
 	*p = n
 	return o
 }
 func SwapInt32(p *int32, n int32) int32 {
 	vsched.YieldSkip("atomic", 1)
-	vsched.AtomicSync(unsafe.Pointer(p))
+	vsched.AtomicSyncW(unsafe.Pointer(p))
 	o := *p
 	*p = n
 	return o
 }
 func LoadPointer(p *unsafe.Pointer) unsafe.Pointer {
 	vsched.YieldSkip("atomic", 1)
-	vsched.AtomicSync(unsafe.Pointer(p))
+	vsched.AtomicSyncR(unsafe.Pointer(p))
 	return *p
 }
 func StorePointer(p *unsafe.Pointer, v unsafe.Pointer) {
 	vsched.YieldSkip("atomic", 1)
-	vsched.AtomicSync(unsafe.Pointer(p))
+	vsched.AtomicSyncW(unsafe.Pointer(p))
 	*p = v
 }
